@@ -49,6 +49,9 @@ func (c *evalCtx) errf(format string, a ...interface{}) {
 
 func (ex *Exec) newCtx(fr *Frame, st, old *State, results []Val) *evalCtx {
 	c := &evalCtx{ex: ex, fr: fr, st: st, old: old, env: map[string]TVal{}, lets: map[string]Expr{}}
+	if ex.exitFallback != nil && fr == ex.topFrame {
+		c.cellsFallback = ex.exitFallback
+	}
 	fn := fr.fn
 	pkg := fn.Pkg
 	for f := fn; pkg == nil && f != nil; f = f.Parent() {
@@ -775,6 +778,26 @@ func (c *evalCtx) evalCall(x *ECall) TVal {
 			c.errf("atlock() used where no Lock() has happened on the path")
 		}
 		return c.withState(c.st.lockSnap).eval(x.Args[0])
+	case "now":
+		// now(p): the current value of the local variable that holds parameter p
+		// (a bare parameter name denotes its value at function entry)
+		id, ok := x.Args[0].(*EIdent)
+		if !ok {
+			c.errf("now() expects a parameter name")
+		}
+		n := *c
+		n.env = map[string]TVal{}
+		for k, v := range c.env {
+			if k != id.Name {
+				n.env[k] = v
+			}
+		}
+		v, found := n.lookupIdent(id.Name)
+		if !found {
+			// never reassigned: the entry value is the current value
+			return c.eval(id)
+		}
+		return v
 	case "atiter":
 		if c.st.iterSnap == nil {
 			c.errf("atiter() used outside a backedge clause")
@@ -837,6 +860,15 @@ func (c *evalCtx) evalCall(x *ECall) TVal {
 			t = "(concat " + strings.Join(parts, " ") + ")"
 		}
 		return TVal{V: Sc{t, BV(8 * n)}, T: types.Typ[types.Uint64]}
+	case "bytesidAt":
+		// bytesidAt(s, lo, n): identity of the n bytes s[lo:lo+n] (n may be symbolic)
+		sl, lo, nn := arg(0), arg(1), arg(2)
+		sv := c.ex.viewSlice(sl.V, sl.T)
+		if !sv.root {
+			c.errf("bytesidAt(): not a heap slice")
+		}
+		m := sc(c.ex.heapTree(c.st, AElems, sv.elemT)).T
+		return TVal{V: Sc{app("BytesId", sel(m, sv.ref), app("bvadd", sv.off, c.idx64(lo)), c.idx64(nn)), BV(64)}, T: types.Typ[types.Uint64]}
 	case "msg":
 		v := arg(0)
 		s := sc(v.V)
@@ -894,6 +926,42 @@ func (c *evalCtx) evalCall(x *ECall) TVal {
 			return boolTV(app("FileHasLine", sc(a.V).T, c.idx64(k)))
 		}
 		return TVal{V: Sc{app("FileLine", sc(a.V).T, c.idx64(k)), SStr}, T: types.Typ[types.String]}
+	case "handlelen":
+		h := arg(0)
+		hs, ok := h.V.(Sc)
+		if !ok {
+			c.errf("handlelen(): not a file handle")
+		}
+		return TVal{V: Sc{sel(c.ex.comp(c.st, handleLenKey, handleLenSort()), hs.T), BV(64)}, T: types.Typ[types.Uint64]}
+	case "handlebytes":
+		// handlebytes(h, off, n): n bytes (constant) at byte offset off of the file behind h, packed (lowest address in the low bits)
+		h, off, nn := arg(0), arg(1), arg(2)
+		hs, ok := h.V.(Sc)
+		if !ok || nn.C == nil {
+			c.errf("handlebytes(handle, off, constant n)")
+		}
+		n := int(nn.C.Int64())
+		bytes := sel(c.ex.comp(c.st, handleBytesKey, handleBytesSort()), hs.T)
+		o := c.idx64(off)
+		parts := make([]string, 0, n)
+		for i := n - 1; i >= 0; i-- {
+			parts = append(parts, sel(bytes, app("bvadd", o, bvInt(int64(i), 64))))
+		}
+		t := parts[0]
+		if len(parts) > 1 {
+			t = "(concat " + strings.Join(parts, " ") + ")"
+		}
+		return TVal{V: Sc{t, BV(8 * n)}, T: types.Typ[types.Uint64]}
+	case "udpcount":
+		return TVal{V: Sc{sel(c.ex.comp(c.st, "Ghost_udpCount", ArrS(SRef, BV(64))), z64()), BV(64)}, T: types.Typ[types.Int]}
+	case "udpat":
+		k := arg(0)
+		lg := c.ex.comp(c.st, "Ghost_udpLog", ArrS(SRef, ArrS(BV(64), BV(64))))
+		return TVal{V: Sc{sel(sel(lg, z64()), c.idx64(k)), BV(64)}, T: types.Typ[types.Uint64]}
+	case "Sign":
+		// Sign(message identity, private key): the (deterministic) signature function
+		m, k := arg(0), arg(1)
+		return TVal{V: Sc{app("SignF", sc(m.V).T, sc(k.V).T), BV(512)}, T: types.Typ[types.Uint64]}
 	case "fileexists":
 		nm := arg(0)
 		return boolTV(c.ex.gfile(c.st, sc(nm.V).T).exists())
